@@ -30,6 +30,24 @@ type c18Binding struct {
 
 // readBindings is the independent reader of the lease file: generic YAML, no library types.
 func readBindings(b []byte) (out []c18Binding, parsed bool, nleases int) {
+	out, parsed, nleases = readBindingsOrdered(b)
+	sort.SliceStable(out, func(i, j int) bool { return out[i].CID < out[j].CID })
+	return
+}
+
+// fileNet1LAN reads net1.lan of a lease file with the generic reader.
+func fileNet1LAN(b []byte) (netip.Prefix, bool) {
+	var doc map[string]interface{}
+	if err := yaml.Unmarshal(b, &doc); err != nil || doc == nil {
+		return netip.Prefix{}, false
+	}
+	n1, _ := doc["net1"].(map[interface{}]interface{})
+	p, err := netip.ParsePrefix(fmt.Sprint(n1["lan"]))
+	return p, err == nil
+}
+
+// readBindingsOrdered returns the allocated entries in file order.
+func readBindingsOrdered(b []byte) (out []c18Binding, parsed bool, nleases int) {
 	var doc map[string]interface{}
 	if err := yaml.Unmarshal(b, &doc); err != nil || doc == nil {
 		return nil, false, 0
@@ -61,12 +79,15 @@ func readBindings(b []byte) (out []c18Binding, parsed bool, nleases int) {
 			bd.MAC = ints(a["mac"])
 			bd.IP = fmt.Sprint(a["ip"])
 		}
-		if st, _ := m["state"].(int); st != 2 {
+		st, _ := m["state"].(int)
+		if f, ok := m["state"].(float64); ok {
+			st = int(f)
+		}
+		if st != 2 {
 			continue
 		}
 		out = append(out, bd)
 	}
-	sort.Slice(out, func(i, j int) bool { return out[i].CID < out[j].CID })
 	return out, true, nleases
 }
 
@@ -300,6 +321,27 @@ func c18Faults(tb drv.TB, rec *drv.Rec, sub string, c c18Case) {
 			for _, b := range loaded {
 				if !fileSet[b] {
 					rec.Violation(tb, sub, "c18-invented-binding", fc, "%s at offset %d (value %#x): loaded %+v, which is not an entry of the damaged file as the independent reader sees it (%v); original %v", kind, off, val, b, inFile, orig)
+					return false
+				}
+			}
+		}
+		if parsed && len(loaded) > 0 {
+			// ... and, when anything was loaded at all, every entry of that file that is valid by the loader's own
+			// rules (allocated, client id, address inside the home LAN; the last entry of a client id wins)
+			ordered, _, _ := readBindingsOrdered(damaged)
+			want := map[string]c18Binding{}
+			fileLAN, lanOK := fileNet1LAN(damaged) // the loader filters by the LAN the file itself declares
+			for _, b := range ordered {
+				ip, perr := netip.ParseAddr(b.IP)
+				if !lanOK || b.CID == "" || perr != nil || !home.Contains(ip) || !fileLAN.Contains(ip) {
+					continue
+				}
+				want[b.CID] = b
+			}
+			got := bindingSet(loaded)
+			for _, b := range want {
+				if !got[b] {
+					rec.Violation(tb, sub, "c18-entry-dropped", fc, "%s at offset %d (value %#x): the damaged file holds the valid entry %+v but the handler loaded only %v", kind, off, val, b, loaded)
 					return false
 				}
 			}
